@@ -1,0 +1,21 @@
+//go:build verif
+// +build verif
+
+package server
+
+import "github.com/XiaoMi/Gaea/util"
+
+// VerifBlacklistNamespace returns a namespace that holds nothing but the
+// blacklist built by parseBlackSqls from the given entries (property C36).
+func VerifBlacklistNamespace(blackSQL []string) *Namespace {
+	return &Namespace{sqls: parseBlackSqls(blackSQL)}
+}
+
+// VerifBlacklistSize is the number of distinct fingerprints in the blacklist.
+func (n *Namespace) VerifBlacklistSize() int { return len(n.sqls) }
+
+// VerifIsSQLAllowed is Namespace.IsSQLAllowed with a fresh request context,
+// as checkSQLAllowed calls it for a statement that has not been fingerprinted yet.
+func (n *Namespace) VerifIsSQLAllowed(sql string) bool {
+	return n.IsSQLAllowed(util.NewRequestContext(), sql)
+}
